@@ -157,6 +157,82 @@ def pipeline(task):
     return out
 
 
+def nested_pipeline(task):
+    """two entries of which one lies inside the other (a file, then the directory it lived in), restored by ONE reply that
+    names the directory first: the reply's order is the order of the restores, and the tree comes back whole"""
+    rng = task_rng("C02n", task["seed"], task["i"])
+    drv = driver()
+    w = W()
+    uid = 1000
+    home = w.dir(R + b"/home/u")
+    d = home + rng.choice([b"/proj", b"/a b"])
+    sub = d + b"/" + rng.choice([b"sub", b"caf\xc3\xa9"])
+    w.dir(sub, rng.choice([0o750, 0o700, 0o755]))
+    w.file(sub + b"/f", b"inner file", 0o640)
+    w.file(sub + b"/other", b"stays in the directory")
+    twins = task["i"] % 2 == 1
+    env = {"HOME": home}
+    base = w.world(env=env, uid=uid, cwd=home, cmd="put", args=[], opts={}, argv=[], stdin=None, randints=[1, 2, 3], meta=[])
+    mism, problems = [], []
+    state = None
+    orig = None
+    first, second = (sub + b"/f", sub) if not twins else (sub + b"/f", sub + b"/f")
+    for k, arg in enumerate((first, second)):
+        wd = dict(base, args=[arg], argv=put_argv({}, [arg]), meta=[{"class": "entry", "kind": "x", "spelling": "abs", "entry": arg}])
+        if state is not None:
+            if twins:
+                state = dict(state)
+                state[arg] = ("f", b"second generation", 0o600, 1000000900, b"")
+                for p_, v_ in list(state.items()):          # the first generation was trashed long ago
+                    if p_.endswith(b".trashinfo") and v_[0] == "f":
+                        state[p_] = (v_[0], re.sub(rb"DeletionDate=[^\n]*", b"DeletionDate=2020-01-01T00:00:00", v_[1]), v_[2], v_[3], v_[4])
+            wd = world_from_state(wd, state)
+        r = putcheck.evaluate(wd, drv, oracles=("C01",))
+        mism += [("put %d" % k, m) for m in r["mismatch"]]
+        if orig is None:
+            orig = {p: v for p, v in r["before_state"].items() if p == sub or p.startswith(sub + b"/")}
+        state = r["after_state"]
+    if twins:
+        orig = dict(orig)
+        orig[sub + b"/f"] = ("f", b"second generation", 0o600, 1000000900, b"")        # the newer one, chosen first, wins the place
+    ropts = {"path": b"/", "sort": rng.choice(["path", "date"])}
+    base_r = dict(base, cmd="restore", opts=ropts, args=[], meta={"entries": [], "tdirs": [], "profile": "c02n", "payload_kinds": []})
+    wl = world_from_state(base_r, state, cwd=R, stdin=b"\n")
+    wl["argv"] = cmd_argv(wl)
+    rl = readcheck.evaluate(wl, drv, oracles=())
+    text = re.sub(rb"What file to restore \[0\.\.\d+\]: ", b"", rl["stdout"])
+    idx = {}
+    for m in re.finditer(rb"(?m)^ *(\d+) (\d{4}-\d\d-\d\d \d\d:\d\d:\d\d) (/.*)$", text):
+        idx.setdefault(m.group(3), []).append((m.group(2), int(m.group(1))))
+    if not twins and (sub not in idx or sub + b"/f" not in idx):
+        problems.append("entries not offered: %r" % text[:200])
+    elif twins and len(idx.get(sub + b"/f", [])) != 2:
+        problems.append("two generations not offered: %r" % text[:200])
+    else:
+        if twins:
+            gens = sorted(idx[sub + b"/f"])                       # by date: older, newer
+            reply = b"%d,%d" % (gens[1][1], gens[0][1])           # the newer first: it gets the place, the older is refused
+        else:
+            reply = b"%d,%d" % (idx[sub][0][1], idx[sub + b"/f"][0][1])    # the directory first, then the file into it
+        wr = world_from_state(base_r, state, cwd=R, stdin=reply + b"\n")
+        wr["argv"] = cmd_argv(wr)
+        rr = readcheck.evaluate(wr, drv, oracles=())
+        mism += [("restore", m) for m in rr["mismatch"]]
+        final = rr["after_state"]
+        back = {p: v for p, v in final.items() if p == sub or p.startswith(sub + b"/")}
+        strip = lambda st: {p: (v[0], v[1], v[2], 0 if v[0] == "d" else v[3], v[4]) for p, v in st.items()}
+        if strip(back) != strip(orig):
+            problems.append("reply %r (in that order): the tree did not come back as it was: %r" % (
+                reply, sorted(set(strip(back).items()) ^ set(strip(orig).items()))[:3]))
+        if not twins and rr["obs_exit"] != 0:
+            problems.append("restore exit %r" % rr["obs_exit"])
+    out = {"skip": None, "name": "nested" if not twins else "twins", "problems": problems, "mismatch": mism, "task": jsonable(dict(task)),
+           "tags": ["kind:" + ("nested" if not twins else "twins"), "layout:home", "sort:" + ropts["sort"], "from:reply-order"]}
+    if problems or mism:
+        out["world"] = jsonable(base)
+    return out
+
+
 def _is_utf8(b):
     try:
         b.decode("utf-8")
@@ -173,7 +249,8 @@ def run(tier, seed):
                  [b"a" + bytes([c]) + b"z" for c in range(1, 256) if c != 47]
     pick = byte_names if tier == "thorough" else [byte_names[i] for i in range(seed % 7, len(byte_names), 7)]
     tasks += [{"seed": seed, "i": 100000 + k, "name": n} for k, n in enumerate(pick)]
-    for r in run_tasks(pipeline, tasks):
+    nested = run_tasks(nested_pipeline, [{"seed": seed, "i": i, "nested": True} for i in range(12 if tier == "quick" else 150)])
+    for r in list(run_tasks(pipeline, tasks)) + list(nested):
         if "machinery" in r:
             raise MachineryError(r["machinery"])
         ck.case((r["name"], tuple(r["tags"])), nontrivial=not r.get("skip"), tags=r["tags"] + (["skipped:" + r["skip"]] if r.get("skip") else []),
@@ -207,7 +284,7 @@ def replay(path):
     tasks += [c["task"] for c in obj.get("disagreeing_cases", []) if c and c.get("task")]
     rc = 0
     for t in tasks:
-        r = pipeline(t)
+        r = nested_pipeline(t) if t.get("nested") else pipeline(t)
         print(json.dumps({"name": r["name"], "problems": r.get("problems"), "mismatch": r["mismatch"], "tags": r["tags"]}, indent=1, default=repr))
         if r.get("problems") or r["mismatch"]:
             print("VIOLATION property=C02 replay=%s" % path)
